@@ -36,7 +36,7 @@ def shards(tier):
 
 def required_counters(tier):
     d = {"transform." + t: 50 for t in TRANSFORMS}
-    d.update({"eager.accept": 50, "eager.reject": 50, "value_independence": 100, "pytree_args": 20, "tracer_checks_observed": 500, "oracle_crosscheck": 100, "param_named_like_symbolic_name": 30})
+    d.update({"eager.accept": 50, "eager.reject": 50, "value_independence": 100, "pytree_args": 20, "tracer_checks_observed": 500, "oracle_crosscheck": 100, "param_named_like_symbolic_name": 30, "question.cases": 50})
     return d
 
 
@@ -247,6 +247,51 @@ def run_case(rec, rng, rngkey=None):
                 rec.violation("forced-concretization", c2, f"{t}: checking forced a tracer to a concrete value {nspy}x via {sorted(set(where))}", mechanism="tracer-forced-" + sorted(set(where))[0])
 
 
+def run_question_case(rec, rng, rngkey):
+    """'?' axes under tracing: eagerly the same array OBJECT may sit at two leaf positions, tracers never
+    do - the verdict must not depend on object identity"""
+    import beartype
+    import jax
+    import jax.numpy as jnp
+    import typeguard
+
+    import jaxtyping
+    from jaxtyping import jaxtyped
+
+    n1, n2, n3 = (rng.choice((2, 3, 4)) for _ in range(3))
+    spec = rng.choice(("?n", "*?n", "?n 2"))
+    mk = lambda n: jax.device_put(np.zeros((n, 2) if spec == "?n 2" else (n,), dtype="float32"))
+    a, b, c = mk(n1), mk(n2), mk(n3)
+    form = rng.choice(("tuple", "list", "dict"))
+    wrap = {"tuple": lambda x, y: (x, y), "list": lambda x, y: [x, y], "dict": lambda x, y: {"p": x, "q": y}}[form]
+    t1, t2 = wrap(a, a), wrap(b, c)  # the SAME object twice in the first tree
+    ann = jaxtyping.PyTree[jaxtyping.Float[jax.Array, spec], "T"]
+    for cname, checker in (("typeguard", typeguard.typechecked), ("beartype", beartype.beartype)):
+        ns = {"__name__": "jtv_c17_generated", "T_a": ann, "jnp": jnp, "jax": jax}
+        real.exec_src("def f(t1: T_a, t2: T_a):\n    return sum(jnp.sum(l) for l in jax.tree_util.tree_leaves((t1, t2)))\n", ns)
+        f = jaxtyped(typechecker=checker)(ns["f"])
+
+        def attempt(thunk):
+            try:
+                thunk()
+                return "accept"
+            except Exception as e:  # noqa
+                return classify(e)
+
+        eager = attempt(lambda: f(t1, t2))
+        expect = "accept" if (n1 == n2 and n1 == n3) else "reject"
+        case = {"question_case": True, "sizes": [n1, n2, n3], "spec": spec, "form": form, "checker": cname, "rngkey": rngkey}
+        rec.count("question.cases")
+        rec.case(("q", n1, n2, n3, spec, form, cname), True)
+        if eager != expect:
+            rec.violation("eager-vs-oracle", case, f"f(({n1},{n1} same object), ({n2},{n3})) with '{spec}': eager {eager}, expected {expect}", mechanism=f"question-eager-{eager}-expected-{expect}")
+        for t, thunk in (("jit", lambda: jax.jit(f)(t1, t2)), ("eval_shape", lambda: jax.eval_shape(f, t1, t2)), ("grad", lambda: jax.grad(f)(t1, t2)), ("vmap", lambda: jax.vmap(f)(jax.tree_util.tree_map(lambda x: jnp.stack([x, x]), t1), jax.tree_util.tree_map(lambda x: jnp.stack([x, x]), t2)))):
+            v = attempt(thunk)
+            rec.count("transform." + t)
+            if v != eager:
+                rec.violation("trace-vs-eager", dict(case, transform=t), f"'?' axes, same object at two leaves: {t} {v}, eager {eager}", mechanism=f"question-trace-{v.split(':')[0]}-eager-{eager}")
+
+
 def run_shard(rec, seed, shard, tier):
     import jax
 
@@ -255,6 +300,8 @@ def run_shard(rec, seed, shard, tier):
     for k in range(CASES[tier]):
         key = f"{seed}/C17/{shard['i']}/{k}"
         run_case(rec, random.Random(key), rngkey=key)
+        if k % 4 == 0:
+            run_question_case(rec, random.Random(key + "/q"), key + "/q")
     r = random.Random(f"{seed}/C17/{shard['i']}/0")
     s = GS.gen_signature(r, max_params=3, p_ret=0.8)
     rec.sample({"sig": s, "transforms": TRANSFORMS})
@@ -263,4 +310,7 @@ def run_shard(rec, seed, shard, tier):
 def replay(rec, case):
     warnings.filterwarnings("ignore")
     install_spy()
-    run_case(rec, random.Random(case["rngkey"]), rngkey=case["rngkey"])
+    if case.get("question_case"):
+        run_question_case(rec, random.Random(case["rngkey"]), case["rngkey"])
+    else:
+        run_case(rec, random.Random(case["rngkey"]), rngkey=case["rngkey"])
